@@ -211,6 +211,12 @@ def run_contract(name, carveouts=(), timeout_ms=10000):
     }
     try:
         res["functions"] = source_hashes(cdef.functions)
+        from . import interp as _interp
+
+        _interp.FOLD_REGISTRY.clear()
+        from . import lib as _lib
+
+        _lib.COLLECT_REGISTRY.clear()
         ctx = Ctx(cdef, carveouts)
         cdef.fn(ctx)
         obs = []
